@@ -7,7 +7,7 @@ from fractions import Fraction
 from common import Str, sx
 
 ID = 'C10'
-LEAN_MODULES = ['Cellml.Props.C10', 'Cellml.Tie.RolesQueries', 'Cellml.Tie.RolesValue']
+LEAN_MODULES = ['Cellml.Props.C10', 'Cellml.Tie.RolesQueries', 'Cellml.Tie.RolesValue', 'Cellml.Tie.RolesClosed', 'Cellml.Props.C10Gen']
 N = {'quick': 2400, 'thorough': 40000}
 RULE = ('systems of 3-12 variables built through Model/add_variable/create_quantity/add_equation: a free variable, '
         '0-4 states with dyadic initial values, constants, computed variables; right-hand sides are random trees '
